@@ -131,6 +131,12 @@ const IDIOMS: &[(&str, &str)] = &[
         "variable_divert_hub",
         "=== k@ ===\nHub @ {hn@}.\n~ hn@ = hn@ + 1\n+ {hn@ < 3} [again @]\n    -> hnx@\n+ {hn@ < 4} [inner @]\n    -> k@.in@\n* [leave @]\n    -> NEXT\n= in@\nInner @ {hn@}.\n~ hn@ = hn@ + 1\n~ hnx@ = -> k@.in@\n{hn@ < 6:\n    -> hnx@\n}\n~ hnx@ = -> k@\n-> hnx@\nGLOB VAR hnx@ = -> k@\nGLOB VAR hn@ = 0\n",
     ),
+    (
+        // an external whose Ink fallback calls itself: unbound with fallbacks allowed, the call
+        // site inside the function resolves to the function that contains it
+        "external_recursive_fallback",
+        "=== k@ ===\nCountdown @ {cdown@(2)}.\n-> NEXT\n=== function cdown@(a) ===\n{a <= 0:\n    ~ return 0\n}\n~ return 1 + cdown@(a - 1)\nGLOB EXTERNAL cdown@(a)\n",
+    ),
 ];
 
 pub fn idiom_count() -> usize {
